@@ -6,6 +6,7 @@ COMMON_ASSUMPTIONS = [
 ]
 
 CHECKS = {
+    "SMOKE": dict(runs=[dict(pkg="rib", harness="VfSmoke_AddNH", reach=["end","zero","installed"])], level_text="", level_note=""),
     "C05": dict(
         runs=[
             dict(pkg="server", harness="VfC05_isNewMaster", bounds="all 2^256 (candidate, existing) id pairs; no loops"),
